@@ -129,23 +129,51 @@ type genOpts struct {
 
 func one(v float64) []float64 { return []float64{v} }
 
-func minAll(xs ...[]float64) []float64 { // all combinations' minima (lists are tiny)
-	out := []float64{math.Inf(1)}
+func minAll(xs ...[]float64) []float64 {
+	// The set of achievable minima when each operand may take any value of its set: v (from any operand) is achievable iff
+	// every operand can take a value >= v, i.e. v <= the smallest of the operands' largest values. Exact, and the size is
+	// the sum (not the product) of the operand set sizes.
+	cap := math.Inf(1)
 	for _, x := range xs {
-		var nx []float64
-		for _, o := range out {
-			for _, v := range x {
-				nx = append(nx, math.Min(o, v))
+		if isAmbiguous(x) {
+			return ambiguousSet
+		}
+		hi := math.Inf(-1)
+		for _, v := range x {
+			hi = math.Max(hi, v)
+		}
+		cap = math.Min(cap, hi)
+	}
+	var out []float64
+	for _, x := range xs {
+		for _, v := range x {
+			if v <= cap {
+				out = append(out, v)
 			}
 		}
-		out = dedupF(nx)
 	}
-	return out
+	return dedupF(out)
+}
+
+// ambiguousSet marks a reference set that grew beyond what is tracked (many nested either-or choices at one point):
+// the comparison at that point is skipped, never judged against a truncated list.
+var ambiguousSet = []float64{math.NaN()}
+
+func isAmbiguous(x []float64) bool {
+	for _, v := range x {
+		if math.IsNaN(v) {
+			return true
+		}
+	}
+	return false
 }
 
 func dedupF(x []float64) []float64 {
 	if len(x) <= 1 {
 		return x
+	}
+	if isAmbiguous(x) {
+		return ambiguousSet
 	}
 	out := x[:0:0]
 	for _, v := range x {
@@ -159,8 +187,8 @@ func dedupF(x []float64) []float64 {
 			out = append(out, v)
 		}
 	}
-	if len(out) > 8 {
-		out = out[:8]
+	if len(out) > 64 {
+		return ambiguousSet
 	}
 	return out
 }
